@@ -58,7 +58,7 @@ func main() {
 			continue
 		}
 		stats := &SolveStats{bySolver: map[string]float64{}, nBySolver: map[string]int{}}
-		v.solveAll(res.x, res.Obligations, *timeout, stats)
+		v.Solve(res, *timeout, stats)
 		nd := 0
 		for _, o := range res.Obligations {
 			if o.Status == "discharged" {
@@ -68,8 +68,11 @@ func main() {
 				fmt.Println(o.Script)
 			}
 		}
-		fmt.Printf("%s: %d paths, %d/%d obligations discharged\n", k, res.Paths, nd, len(res.Obligations))
+		fmt.Printf("%s: %d paths (%d/%d return paths feasible), %d/%d obligations discharged\n", k, res.Paths, res.FeasibleReturns, res.ReturnPaths, nd, len(res.Obligations))
 		for _, o := range res.Obligations {
+			if o.Status == "discharged" && o.Time > 2 && !*verbose {
+				fmt.Printf("   slow       %s  [%s %.2fs]\n", o.Label, o.Solver, o.Time)
+			}
 			if o.Status != "discharged" || *verbose {
 				fmt.Printf("   %-10s %s  [%s %.2fs] %s path=%v\n", o.Status, o.Label, o.Solver, o.Time, o.Pos, o.Path)
 				if o.Status != "discharged" {
